@@ -147,6 +147,7 @@ func TestC22RetransmissionStops(t *testing.T) {
 		// a retransmitted copy is the announcement again: the same bytes as the first one, and (the secrets
 		// monitor of C23) nothing in it that must not leave the node
 		firstCopy := map[string][]byte{}
+		tickedEarly := map[*sim.TickSender]bool{}
 		seenMsgs := 0
 		h.monitors = []func(*Hist){monitorC23(col), func(h *Hist) {
 			for _, m := range h.W.Sent[seenMsgs:] {
@@ -162,6 +163,30 @@ func TestC22RetransmissionStops(t *testing.T) {
 				}
 			}
 			seenMsgs = len(h.W.Sent)
+		}, func(h *Hist) {
+			// a swap that has just started to wait for the taker gets a tick right away in half of the cases,
+			// so that most histories contain a retransmission before the state changes again
+			for _, n := range h.nodes() {
+				if !h.alive(n) {
+					continue
+				}
+				for _, ts := range n.Tickers {
+					if ts.Epoch != n.Proc.Epoch || tickedEarly[ts] {
+						continue
+					}
+					if sm, err := n.Svc.GetActiveSwap(ts.SwapId); err == nil && sm != nil && waitingForTaker(string(sm.Current)) {
+						tickedEarly[ts] = true
+						if rapid.Bool().Draw(t, "earlyTick") {
+							offerAll()
+							if !h.stop {
+								checkLoops("early-tick")
+							}
+							h.opf("early-tick")
+							return
+						}
+					}
+				}
+			}
 		}}
 		acts := h.stdActions()
 		delete(acts, "settle")
